@@ -3,7 +3,7 @@
    obligation: a source edit that changes a skeleton breaks the obligation and every theorem below. *)
 From Coq Require Import List Arith NArith ZArith Lia Bool.
 From GoMC Require Import Model.C20_syntax Gen.Queue Model.C20 Proofs.C20 Proofs.C20_fifo Proofs.C20_ll Proofs.C20_ch
-  Proofs.C20_plist Proofs.C20_pool.
+  Proofs.C20_plist Proofs.C20_pool Proofs.C20_term.
 Import ListNotations.
 
 Definition reachable (P : progs) (capacity : nat) (scripts : list (list op)) (s : state) : Prop :=
@@ -40,6 +40,11 @@ Proof. use_ll. intros R. eapply ll_no_deadlock; eauto. Qed.
 Lemma top_ll_closed_terminates n sc s : reachable ll_progs n sc s -> stuck ll_progs s -> closed s = true ->
   forall i t, nth_error (thr s) i = Some t -> finished t = true \/ isP t = true.
 Proof. use_ll. intros R. eapply ll_closed_terminates; eauto. Qed.
+
+Lemma top_ll_terminates n sc k s : reachN ll_progs (init n sc) k s -> k + phi s <= step_bound sc.
+Proof. rewrite ?ll_progs_ok. apply ll_terminates. Qed.
+Lemma top_ll_counted n sc s : reachable ll_progs n sc s -> exists k, reachN ll_progs (init n sc) k s.
+Proof. apply reach_reachN. Qed.
 
 (* ---- channel queue *)
 Ltac use_ch := unfold reachable; rewrite ?ch_progs_ok.
